@@ -251,8 +251,10 @@ func (v *FHIRPathVisitor) VisitEqualityExpression(ctx *grammar.EqualityExpressio
 		expression = &expr.EqualityExpression{Left: leftResult.Result, Right: rightResult.Result, Not: true}
 	case expr.Equivalence:
 		// TODO (PHP-5889): Implement equivalence expressions
+		return &VisitResult{nil, errNotSupported}
 	case expr.Inequivalence:
 		// TODO (PHP-5889): Implement non-equivalence expressions
+		return &VisitResult{nil, errNotSupported}
 	}
 	return v.transformedVisitResult(expression)
 }
